@@ -671,13 +671,14 @@ int main(int argc, char** argv)
     "Non-trivial: every case (hashed by kind and the fingerprint of the built container); trivial containers without arrays are included on purpose.";
   spec.bounds_quick = "DenseVector len<=9; DVBlocked<2>,<3> blocks<=4; SparseVector size<=4 all index subsets (+4 insertion-built); SVBlocked<2> size<=3; DenseMatrix<=3x3; "
     "CSR all patterns<=3x3 and 3x4 (+entry-free 0..3 x 0..3, arrays-without-entries); BCSR<2,2>,<2,3> all block patterns<=2x2; Banded all offset subsets<=3x3; CSCR all used-row subsets x patterns<=2x3; "
-    "DistFileIO serial combined/ordered/sequence for section sizes 0..5 x 0..5; type pairs (double,u64),(float,u32),(double,u32); serialisation pairs {double,float}x{u64,u32}; modes: serialize/deserialize, fm_binary+own mode on stringstream/BinaryStream/file (files: every 16th variant, thorough every 4th), checkpoint interface, fm_mtx, fm_exp";
+    "DistFileIO serial combined/ordered/sequence for section sizes 0..5 x 0..5 and text-stream sequence/common files of 0..5 lines; BinaryStream operation histories (write, put, <<char, seek, read, get) to depth 4 (thorough 6) against a byte-vector model; Pack::Type names; SerialConfig setters; type pairs (double,u64),(float,u32),(double,u32); serialisation pairs {double,float}x{u64,u32}; modes: serialize/deserialize, fm_binary+own mode on stringstream/BinaryStream/file (files: every 16th variant, thorough every 4th), checkpoint interface, fm_mtx, fm_exp";
   spec.bounds_thorough = "as quick plus DenseVector len<=17, blocks<=7, SparseVector size<=5, DenseMatrix<=4x4, CSR 4x3 (4095 patterns) and 4x4 (65535 patterns), BCSR block patterns<=3x3, Banded 4x4, CSCR<=3x3";
   spec.assumptions = {
     "oracle = fingerprints (sizes, scalar_index, scalar_dt, every raw array) read directly from the containers; text modes compare dimensions, pattern and values",
     "exact alphabet k/8 (|k|<=23) is representable in float and prints exactly with 7 significant digits; the rounding and the extreme alphabet are compared with relative tolerance 5.01e-7 (all text writers print 7 significant digits, std::scientific default precision) and zeros with their sign; binary modes are compared bitwise",
     "extreme alphabet (36 values): +-{DBL_MAX/2, 1e300, 1e100, 9.9999995e99, 9.999999e99, 7.5e99, 1e99, 1e-99, 1.5e-99, 9.9999995e-100, 7.5e-100, 1e-100, 1e-300, DBL_MIN, 1e-310 and 4.94e-324 (denormal), 1, 0}; for float +-{FLT_MAX/2, 1e38, 1e30, 1.5e10, 1e-30, 1e-37, FLT_MIN, 1e-40 and 1.4e-45 (denormal), 1, 0}; every offset for the first 40 variants of each kind, one offset otherwise; narrowing serialisation pairs / cross-type reads are skipped for it on double containers",
-    "zlib/zfp compression modes are not available in this build (no third-party libraries) and are not exercised",
+    "zlib/zfp compression modes are not available in this build (no third-party libraries) and are not exercised: Pack::lossless_/lossy_ encode/decode/estimate, the compressed branches of _serialize/_deserialize, SerialConfig setters with zlib/zfp arguments (they abort), F16/F128 pack types",
+    "coverage audit exclusions (anchor files, but outside persistence): the algebra/assembly members of the containers (apply, axpy, norms, convert between matrix formats, layout/graph constructors, ScatterAxpy, permute, name(), random/value constructors) belong to C01-C04/C02/C20; MPI branches of dist_file_io.cpp belong to C13; printing (operator<<) of containers",
     "excluded: reading a container with a mismatching container kind; fm_mtx of array-free matrices with rows (see exclusions counter)"};
   spec.max_samples = 10;
   if(std::getenv("C05_TRIAGE") != nullptr) { spec.max_report = 100000; spec.max_fail_per_worker = 1000000; }
